@@ -721,6 +721,20 @@ def rule_covariance(F, ev_unused, R, config, rule="R-COVARIANCE"):
             ok, msg = False, "for %s weights: %s" % (var, msgv)
             break
     R.add(rule, config, b.key, "cov=χ²_red·inv((W·J)ᵀ(W·J))", ok, msg, s.get("span"))
+    # an in-place inversion (`try_inverse_mut`) reports success through its flag only: the statistics may be built only
+    # where that flag is known to be true (the evaluator takes the matrix for its inverse after the call)
+    if sbi is not None:
+        g = Guards(ev, b, env)
+        rels, raw = g.relations_at(sbi)
+        held = [nosite(t_) for t_, tr, sw in raw if tr is True]
+        for xb, xenv in inlined_envs(ev, env):
+            for cbi, ct in xb.calls():
+                if "fn" in ct and ct["fn"]["name"] == "try_inverse_mut":
+                    flag = nosite(ev.call_val(xenv, cbi))
+                    okf = flag in held
+                    R.add(rule, config, xb.key, "in-place-inverse-used-only-on-success", okf,
+                          "" if okf else "the statistics are built on a path where `try_inverse_mut` is not known to have succeeded: on failure the matrix is not an inverse",
+                          ct.get("span"))
     R.floor(rule, config, 1, "covariance formula")
 
 
